@@ -15,11 +15,13 @@ from gen_tables import GenError, REPO, coq_str, coq_N, HEADER
 
 
 def _calls_with_fmt(func_node, callee):
+    """string literals given as first argument to `callee(...)` / `<x>.callee(...)` anywhere in the function"""
     out = []
     for n in ast.walk(func_node):
-        if isinstance(n, ast.Call) and isinstance(n.func, ast.Name) and n.func.id == callee and n.args \
-                and isinstance(n.args[0], ast.Constant) and isinstance(n.args[0].value, str):
-            out.append(n.args[0].value)
+        if isinstance(n, ast.Call) and n.args and isinstance(n.args[0], ast.Constant) and isinstance(n.args[0].value, str):
+            name = n.func.id if isinstance(n.func, ast.Name) else n.func.attr if isinstance(n.func, ast.Attribute) else None
+            if name == callee:
+                out.append(n.args[0].value)
     return out
 
 
@@ -60,25 +62,40 @@ def gen_block() -> str:
     vH, wH = probe("#", live_parse_struct)
     if bytes(vH) != bytes(range(1, 1 + wH)):
         raise GenError('"#" does not return the raw bytes')
-    # the message streamer of the network: "1" codec and the merkleblock post-unpack
-    fv = dict(zip(network.message.parse.__code__.co_freevars,
-                  [c.cell_contents for c in (network.message.parse.__closure__ or ())]))
-    posts = fv.get("message_post_unpacks")
-    parsers = fv.get("message_parsers")
-    if not isinstance(posts, dict) or not isinstance(parsers, dict) or "merkleblock" not in parsers:
-        raise GenError("unexpected closure of network.message.parse")
-    pu = posts.get("merkleblock")
-    pu_name = getattr(pu, "__name__", "") if pu else ""
-    if pu is not M.post_unpack_merkleblock:
-        pu_name = "OTHER:" + pu_name
-    pfv = dict(zip(parsers["merkleblock"].__code__.co_freevars,
-                   [c.cell_contents for c in (parsers["merkleblock"].__closure__ or ())]))
-    streamer = pfv.get("streamer")
-    if streamer is None:
-        raise GenError("no streamer in the merkleblock parser closure")
-    v1, w1 = probe("1", streamer.parse_struct)
-    if v1 != 1:
-        raise GenError('"1" is not an unsigned byte')
+    # the "1" codec and the merkleblock post-unpack: first from the closures of network.message.parse (local names of
+    # make_parser_and_packer — optional), else probed through the public entry point with a one-leaf proof
+    pu_name, w1 = None, None
+    try:
+        fv = dict(zip(network.message.parse.__code__.co_freevars,
+                      [c.cell_contents for c in (network.message.parse.__closure__ or ())]))
+        posts, parsers = fv["message_post_unpacks"], fv["message_parsers"]
+        pu = posts.get("merkleblock")
+        pu_name = getattr(pu, "__name__", "") if pu else ""
+        if pu is not getattr(M, "post_unpack_merkleblock", None):
+            pu_name = "OTHER:" + pu_name
+        pfv = dict(zip(parsers["merkleblock"].__code__.co_freevars,
+                       [c.cell_contents for c in (parsers["merkleblock"].__closure__ or ())]))
+        v1, w1 = probe("1", pfv["streamer"].parse_struct)
+        if v1 != 1:
+            raise GenError('"1" is not an unsigned byte')
+    except GenError:
+        raise
+    except Exception:
+        pu_name, w1 = None, None
+    if pu_name is None:
+        import struct as _st
+        root = bytes(range(100, 132))
+        msg = (_st.pack("<L", 1) + bytes(32) + root + _st.pack("<LLL", 0, 0, 0) + _st.pack("<L", 1)
+               + b"\x01" + root + b"\x01\x01")
+        try:
+            d = network.message.parse("merkleblock", msg)
+        except Exception as e:
+            raise GenError("merkleblock probe raised %s: %s" % (type(e).__name__, e))
+        if list(d.get("flags", ())) != [1] or [bytes(x) for x in d.get("hashes", ())] != [root] \
+                or d.get("total_transactions") != 1:
+            raise GenError("merkleblock probe: unexpected fields %r" % sorted(d))
+        w1 = 1
+        pu_name = "post_unpack_merkleblock" if [bytes(x) for x in d.get("tx_hashes", ())] == [root] else "OTHER:none"
     out = [HEADER]
     out.append("Definition block_header_fmt : string := %s.\n" % coq_str(p[0]))
     out.append("Definition block_count_fmt : string := %s.\n" % coq_str(pc[0]))
